@@ -76,7 +76,7 @@ Proof.
 Qed.
 Lemma path_push_ordinary a b : ordinary a -> path_push a b = a ++ 47 :: b.
 Proof.
-  intros (A & M & _). unfold path_push. destruct (List.rev a) as [|c r] eqn:E.
+  intros (A & M & _). unfold path_push. rewrite frev_eq. destruct (List.rev a) as [|c r] eqn:E.
   - apply (f_equal (@List.rev N)) in E. rewrite rev_involutive in E. cbn in E. congruence.
   - destruct (N.eqb_spec c 47) as [->|Nc].
     + exfalso. assert (In 47 a) as Hin by (apply in_rev; rewrite E; left; reflexivity). apply mem_In in Hin. congruence.
